@@ -817,3 +817,65 @@ func checkC09MissingValue(c *Ctx, n int) {
 		})
 	}
 }
+
+// checkC13CommandNamespace: a namespace assigned to a COMMAND (Command.Namespace) is part of the long names of the
+// options below it — `--remote.tags=x` on the command line.  An INI entry naming the option by that namespaced long
+// name, in the section of the command (or of a group attached to it), stores the same value as the flag; the
+// field name and the short name keep working.
+func checkC13CommandNamespace(c *Ctx, n int) {
+	r := c.Rng
+	for i := 0; i < n; i++ {
+		delim := []string{".", "-"}[r.Intn(2)]
+		cs := &Case{Name: "app", NsDelim: delim, EnvNsDelim: "_"}
+		add := &StructDesc{Fields: []FieldDesc{{Name: "Tags", Exported: true, Kind: "v", Ty: []string{"str", "Lstr"}[r.Intn(2)], Tag: `long:"tags" short:"t"`}}}
+		remote := &StructDesc{Fields: []FieldDesc{
+			{Name: "Own", Exported: true, Kind: "v", Ty: "bool", Tag: `long:"own"`},
+			{Name: "Add", Exported: true, Kind: "s", Tag: `command:"add"`, Sub: add}}}
+		root := &StructDesc{Fields: []FieldDesc{
+			{Name: "V", Exported: true, Kind: "v", Ty: "bool", Tag: `short:"v"`},
+			{Name: "Remote", Exported: true, Kind: "s", Tag: `command:"remote" subcommands-optional:"1"`, Sub: remote}}}
+		cs.Build = []BuildOp{{Kind: "addgroup", Target: 1, Short: "Application Options", Struct: root},
+			{Kind: "setcmd", Target: 1, Attr: "subopt", Vals: []string{"1"}},
+			{Kind: "setcmd", Target: 2, Attr: "ns", Vals: []string{hx("remote")}},
+			{Kind: "addgroup", Target: 2, Short: "Late", Struct: &StructDesc{Fields: []FieldDesc{
+				{Name: "Depth", Exported: true, Kind: "v", Ty: "str", Tag: `long:"depth" short:"d"`}}}}}
+		section, full, field, short := "remote.add", "remote"+delim+"tags", "Tags", "t"
+		if r.Intn(2) == 0 {
+			section, full, field, short = "remote.Late", "remote"+delim+"depth", "Depth", "d"
+		}
+		name := full
+		how := r.Intn(4)
+		switch how {
+		case 1:
+			name = field
+		case 2:
+			name = short
+		}
+		asDefaults := r.Intn(3) == 0
+		text := "[" + section + "]\n" + name + " = x\n"
+		cs.Ops = []Op{{Kind: "iniparse", Text: text, AsDefaults: asDefaults}}
+		if asDefaults {
+			cs.Ops = append(cs.Ops, Op{Kind: "parse", Args: []string{}})
+		}
+		cs.Description = describeOps(cs)
+		c.RunCases([]*Case{cs}, func(cr *CaseResult) {
+			c.classifyCase(cr)
+			if cr.Real == nil || cr.Real.dead {
+				return
+			}
+			c.Class(fmt.Sprintf("c13/command-namespace: option=%s named-by=%d as-defaults=%v", field, how, asDefaults))
+			first := nthLine(cr.Impl, "INI ", 0)
+			val := ""
+			if fr, ok := cr.Real.fields[field]; ok {
+				val = fmt.Sprint(fr.val.Interface())
+			}
+			in := map[string]interface{}{"case": cs.Description, "text": text, "command_remote_has_namespace": "remote", "flag_of_the_same_meaning": "--" + full + "=x"}
+			got := fmt.Sprintf("read: %s; %s=%s", decodeLine(first), field, val)
+			ok := first == "INI ok" && (val == "x" || val == "[x]")
+			if !ok {
+				in["case_file"] = c.saveCase(cr)
+			}
+			c.Check("an-entry-under-a-command's-namespace-means-what-the-flag-means", ok, "C13:command-namespace", in, got, "read: ok; "+field+"=x")
+		})
+	}
+}
